@@ -294,6 +294,8 @@ func runC08(c *Ctx) {
 		c08Outcomes(c, handlerFn, takeSites[0])
 	}
 	c.Floor("C08.L4-one-outcome", 3)
+	mutexHoldersByPointer(c, "C08.L1-mutex-holders-by-pointer", dagsyncPkg)
+	c.Floor("C08.L1-mutex-holders-by-pointer", 2)
 
 	// ---- L7 an announcement that passed the receiver's check is handed on: the check marks its CID as seen, so from
 	// there every way out of the delivery routine goes through the hand-over to Next (whose other alternatives are the
